@@ -85,8 +85,8 @@ class Order:
             # attribute of another object: look for a class in the repo that assigns it from a constructor parameter
             owners = [c for c in self.model.classes.values() if c.module.path.startswith("src/scenic/core/") and "__init__" in c.methods and any(
                 isinstance(n, ast.Assign) and any(unparse(t) == f"self.{e.attr}" for t in n.targets) for n in ast.walk(c.methods["__init__"]))]
-            if len(owners) == 1:
-                return self.attr(owners[0], e.attr, depth, seen)
+            if owners:
+                return self.join(self.attr(o, e.attr, depth, seen) for o in owners)
         return UNKNOWN
 
     def attr(self, ci, name, depth, seen):
